@@ -253,6 +253,8 @@ def r2(repo, res, canon, pc, logic, plogic):
                     continue
                 if N == Affine({av: 1}) and lit_lt(av, size_p) in must:
                     continue      # fewer free than asked for: all of them
+                if N == minmax_term('min', [Affine({size_p: 1}), Affine({av: 1})]):
+                    continue      # the same, spelled min(size, free)
                 oks = False
             oks = oks and seen > 0
     (res.ok if oks else res.bad)('C09.R2', pb, loops[0] if loops else None, 'provision_batch_resources reserves `size` machines',
